@@ -1005,15 +1005,17 @@ theorem extract_positionals_spec (fs : ArgFs) (cwd : Path) (validate : Bool) (co
 `ProjPipe.worldOf` (CLModel/Compare/ProjectsPipe.lean) is the world the driver operation `c10.handle` runs and the
 correspondence diffs against the real `CompareLocales.handle`: `compare` behind its `getParser` gate is `Pipe.compareParsed`
 on the parsed contents of the two files.  For it the contract `CompareRuns` is a THEOREM, so the theorems above hold
-for it without any assumption on `compare`. -/
+for it without any assumption on `compare`.  The external functions of the pipeline model (`Pipe.Ext`, introduced by the
+DTD coverage of C05) are a parameter of the world; every theorem here holds FOR ALL `ext`. -/
 
 /-- the composed pipeline model of `ContentComparer.compare` keeps the contract: its effect on the observers is a run of
     `error`/`warning`/`missingEntity`/`obsoleteEntity` notifications for the localized file and one `updateStats` without an
     `errors` entry (or the single `error` of a failed `readFile`, for that file) — for ALL file contents -/
-theorem composed_world_contract (cwd : ProjM.Path) (enums : List (Option Text × Except ProjM.PyErr ProjM.Files))
+theorem composed_world_contract (ext : Pipe.Ext) (cwd : ProjM.Path)
+    (enums : List (Option Text × Except ProjM.PyErr ProjM.Files))
     (existing : List ProjM.Path) (md : List (ProjM.Path × Text)) (cs : List (ProjM.Path × ProjPipe.Content)) :
-    C10P.CompareRuns (ProjPipe.worldOf cwd enums existing md cs) :=
-  C10P.worldOf_compareRuns cwd enums existing md cs
+    C10P.CompareRuns (ProjPipe.worldOf ext cwd enums existing md cs) :=
+  C10P.worldOf_compareRuns ext cwd enums existing md cs
 
 open ProjM in
 /-- EXIT STATUS END TO END for the composed model (no assumption on `compare`): from the command line and the file
@@ -1021,7 +1023,7 @@ open ProjM in
     iff by some project observer. -/
 theorem composed_exit_iff (hw : HWorld) (h : HArgs)
     (hcomp : ∀ cfgs env full locs projects w, hw.loadConfigs cfgs env full locs = .ok (projects, w) →
-      ∃ cwd enums existing md cs, w = ProjPipe.worldOf cwd enums existing md cs)
+      ∃ ext cwd enums existing md cs, w = ProjPipe.worldOf ext cwd enums existing md cs)
     (rv : Nat) (hret : (handle hw h).outcome = .returned rv) :
     ∃ st, (handle hw h).final = some st ∧
       (rv = 1 ↔ h.returnZero = false ∧ 0 < totalErrors st.obs.own.summary) ∧
@@ -1029,21 +1031,21 @@ theorem composed_exit_iff (hw : HWorld) (h : HArgs)
       (rv = 0 ∨ rv = 1) := by
   apply handle_exit_iff hw h _ rv hret
   intro cfgs env full locs projects w hl
-  obtain ⟨cwd, enums, existing, md, cs, rfl⟩ := hcomp cfgs env full locs projects w hl
-  exact composed_world_contract cwd enums existing md cs
+  obtain ⟨ext, cwd, enums, existing, md, cs, rfl⟩ := hcomp cfgs env full locs projects w hl
+  exact composed_world_contract ext cwd enums existing md cs
 
 open ProjM in
 /-- the run of the composed model refines a history (`projects_refine_history` without its hypothesis) -/
-theorem composed_refine_history (cwd : Path) (enums : List (Option Text × Except ProjM.PyErr Files))
+theorem composed_refine_history (ext : Pipe.Ext) (cwd : Path) (enums : List (Option Text × Except ProjM.PyErr Files))
     (existing : List Path) (md : List (Path × Text)) (cs : List (Path × ProjPipe.Content))
     (projects : List Project) (a : Args) (junk : Nat) (st : St)
-    (h : compareProjects (ProjPipe.worldOf cwd enums existing md cs) projects a junk = .ok st) :
+    (h : compareProjects (ProjPipe.worldOf ext cwd enums existing md cs) projects a junk = .ok st) :
     ∃ tr : C10P.Trace, st.calls = tr.map (·.1) ∧
       (ObsList.init a.quiet (mkObservers projects a)).run (tr.flatMap (·.2)) = .ok st.obs ∧
       (tr.flatMap (·.2)).filter C10P.isFileEv = tr.filterMap (fun p => C10P.fileEvOf p.1) ∧
       NoErrStats (tr.flatMap (·.2)) := by
   obtain ⟨tr, t1, t2, t3, _, _⟩ :=
-    projects_refine_history _ (composed_world_contract cwd enums existing md cs) projects a junk st h
+    projects_refine_history _ (composed_world_contract ext cwd enums existing md cs) projects a junk st h
   exact ⟨tr, t1, t2, C10P.trace_fileEvents tr t3, C10P.trace_noErrStats tr t3⟩
 
 open ProjM in
@@ -1092,10 +1094,11 @@ theorem projects_quiet_hides_only_details (w : World) (hw : C10P.CompareSync w) 
 /-- the composed pipeline model of `ContentComparer.compare` is blind to the quiet level: on two observer lists with the
     same project filters it raises the same events, prints the same lines, spends the same junk ids — for ALL file
     contents.  So `projects_quiet_hides_only_details` holds for the composed model without assumption. -/
-theorem composed_world_quiet_blind (cwd : ProjM.Path) (enums : List (Option Text × Except ProjM.PyErr ProjM.Files))
+theorem composed_world_quiet_blind (ext : Pipe.Ext) (cwd : ProjM.Path)
+    (enums : List (Option Text × Except ProjM.PyErr ProjM.Files))
     (existing : List ProjM.Path) (md : List (ProjM.Path × Text)) (cs : List (ProjM.Path × ProjPipe.Content)) :
-    C10P.CompareSync (ProjPipe.worldOf cwd enums existing md cs) :=
-  C10P.worldOf_compareSync cwd enums existing md cs
+    C10P.CompareSync (ProjPipe.worldOf ext cwd enums existing md cs) :=
+  C10P.worldOf_compareSync ext cwd enums existing md cs
 
 /-! ### non-vacuity and negation witnesses for the orchestration layer -/
 
